@@ -252,6 +252,49 @@ func CheckAllOrNothingCLI(run *core.Run, prog *load.Program, c *CLI) {
 		}
 		run.Check("G-CLI/file", "write-error-returned", prog.Pos(wr.Call.Pos()), okRet, "the error of os.WriteFile is dropped: an unwritable destination would exit 0")
 	}
+	// --- a successful run always generates, and with -out always writes the file
+	{
+		r := c.Run.Explore(0, 0, cfgx.Cuts{Nodes: map[ast.Node]bool{mock.Call: true}})
+		bad := 0
+		for _, ex := range r.Exits {
+			rs, isRet := ex.Node.(*ast.ReturnStmt)
+			if !isRet || len(rs.Results) != 1 {
+				bad++
+				continue
+			}
+			if id, ok := ast.Unparen(rs.Results[0]).(*ast.Ident); ok {
+				if _, isNil := info.Uses[id].(*types.Nil); isNil {
+					bad++
+				}
+			}
+		}
+		run.Check("G-CLI/always-generates", c.RunFn.Name(), prog.Pos(mock.Call.Pos()), bad == 0, fmt.Sprintf("%s can return success on %d path(s) that never call Mock (e.g. an \"output is up to date\" shortcut): what is at -out then depends on an earlier run, not on this command line", c.RunFn.Name(), bad))
+		mv := c.Run.ErrVarOf(mock.Call)
+		if mv != nil {
+			okMock := func(cond ast.Expr) (bool, bool, bool) {
+				if is, nonNilTrue := cfgx.NilTestOf(info, cond, mv); is {
+					return !nonNilTrue, nonNilTrue, true // Mock succeeded
+				}
+				return false, false, false
+			}
+			b, i := mock.After()
+			r2 := c.Run.Explore(b, i, cfgx.Cuts{Decide: c.decide(Assume{out: "nonempty"}, okMock), Nodes: map[ast.Node]bool{wr.Call: true}})
+			okEvery := true
+			for _, ex := range r2.Exits {
+				rs, isRet := ex.Node.(*ast.ReturnStmt)
+				if !isRet || len(rs.Results) != 1 {
+					okEvery = false
+					continue
+				}
+				if id, ok := ast.Unparen(rs.Results[0]).(*ast.Ident); ok {
+					if _, isNil := info.Uses[id].(*types.Nil); isNil {
+						okEvery = false
+					}
+				}
+			}
+			run.Check("G-CLI/file", "written-on-every-success", prog.Pos(wr.Call.Pos()), okEvery, "with -out set and generation successful, the run can still return success without writing the file (a \"nothing changed\" shortcut): the file then keeps what an earlier run left there")
+		}
+	}
 	checkMain(run, prog, c)
 }
 
